@@ -68,7 +68,7 @@ def _acc(rng):
     return rng.randint(0, M)
 
 def _candidate(rng):
-    fam = rng.choice(["noreversal", "reversal_small", "reversal_large", "zero_at_tick", "constant", "boundary", "early_reversal", "legacy", "invalid", "tiny", "long", "knife", "knife", "zero_disc"])
+    fam = rng.choice(["noreversal", "reversal_small", "reversal_large", "zero_at_tick", "constant", "boundary", "early_reversal", "legacy", "invalid", "tiny", "long", "knife", "knife", "zero_disc", "first_tick"])
     s = lambda: rng.choice([1, -1])
     if fam == "invalid":
         return rng.choice([(0, rng.randint(-9, 9), rng.randint(-9, 9)), (rng.randint(1, 9), 0, 0), (-rng.randint(1, 9), -rng.randint(1, 10**6), rng.randint(-5, 5))]), fam
@@ -116,6 +116,23 @@ def _candidate(rng):
         if steps < 1: return (1, 1, 0), "tiny"
         sg = s()
         return (steps, sg * (r0 + tq(a, 2)), sg * a, acc if sg > 0 else M - acc), fam
+    if fam == "first_tick":
+        # the budget is exhausted on the first or second tick of an accelerated move (explicit accumulator close to the step boundary):
+        # the smaller root of the quadratic lies in (-1, 0] and must not be taken for the duration
+        sg = s(); a = rng.choice([2000, 1, 3, 65536, rng.randint(1, 10**7)]) * rng.choice([1, 1, -1])
+        r1 = rng.randint(1, M // 2)                      # rate at tick 1 (forward)
+        T = rng.choice([1, 1, 2])
+        if rng.random() < 0.5 and a > 1:
+            # a start from (nearly) rest: the rate before the first tick is negative, the rate at the first tick positive, and the
+            # budget is short of the boundary by no more than either (the other root of the quadratic then lies in (-1, 0])
+            r0n = -rng.randint(1, a - 1); r1 = r0n + a; T = 1
+            d = rng.randint(1, min(r1, -r0n)); steps = rng.choice([1, 1, 2]); acc = B - d
+            return (steps * rng.choice([1, 1, -1]) if sg > 0 else steps, sg * (r0n + tq(a, 2)), sg * a, (acc if sg > 0 else M - acc) if steps == 1 else None), fam
+        d = rng.randint(1, r1) if T == 1 else r1 + rng.randint(1, max(1, r1 + a)) if r1 + a > 0 else rng.randint(1, r1)
+        steps = rng.choice([1, 1, 2]); acc = (B * steps - d) % B
+        if B * steps - d < 0 or acc != B * steps - d - B * (steps - 1): return (1, 1, 0), "tiny"
+        r0 = r1 - a
+        return (steps * rng.choice([1, 1, -1]) if sg > 0 else steps, sg * (r0 + tq(a, 2)), sg * a, acc if sg > 0 else M - acc), fam
     if fam == "zero_disc":
         # the budget is reached exactly at the tick where the rate has fallen to zero, with the total exactly on the step boundary: the
         # quadratic has a double root (discriminant 0); and the same move with the accumulator one unit off either way
